@@ -190,6 +190,11 @@ theorem tie_skel_newClientSession : Gen.Skel.newClientSession = [
   "return nil, ErrFileNameTooLong",
   "}",
   "}",
+  "if config.MemMapType == MemMapTypeMemFd {",
+  "if len(memfdCreateName)+len(conf.ShareMemoryPathPrefix)+epochInfoMaxLen+queueInfoMaxLen > memfdNameMaxLen {",
+  "return nil, ErrFileNameTooLong",
+  "}",
+  "}",
   "if epochID > 0 {",
   "conf.ShareMemoryPathPrefix += \"_epoch_\" + strconv.FormatUint(epochID, 10) + \"_\" + strconv.FormatUint(randID, 10)",
   "}",
